@@ -39,10 +39,13 @@ class FaultPlan:
 
     def __init__(self, faults=None):
         self.faults = list(faults or [])
+        self.exempt_keys = set()
         self.counts = {}
         self.fired = []
 
-    def check(self, op, when, seq):
+    def check(self, op, when, seq, key=None):
+        if key is not None and key in self.exempt_keys:
+            return None
         for f in self.faults:
             if f['op'] == op and f['when'] == when and f['nth'] == seq and not f.get('done'):
                 f['done'] = True
@@ -61,13 +64,18 @@ class FakeBody:
     """Streaming body of a GET. `script` is a list of read sizes (short reads) optionally ending
     with ('fault', exc_factory); when the script is exhausted reads return what was asked."""
 
-    def __init__(self, svc, data, script=None, tag=None):
+    def __init__(self, svc, data, script=None, tag=None, key=None):
+        self._key = key
         self._svc = svc
         self._data = data
         self._pos = 0
         self._script = list(script or [])
         self._tag = tag
         self.reads = []
+
+    def _note(self, what):
+        svc = self._svc
+        svc.body_log.append({'t': svc.clock() if svc.clock else 0, 'tag': self._tag, 'what': what})
 
     def read(self, amt=None):
         self._svc.hook('body-read', self._tag)
@@ -76,7 +84,8 @@ class FakeBody:
             if isinstance(s, tuple) and s[0] == 'fault':
                 exc = s[1]()
                 self._svc.fired.append({'op': 'body-read', 'tag': self._tag, 'exc': exc,
-                                        'after_bytes': self._pos})
+                                        'after_bytes': self._pos, 'key': self._key})
+                self._note('fault')
                 raise exc
             n = s if amt is None else min(s, amt)
         else:
@@ -84,6 +93,8 @@ class FakeBody:
         chunk = self._data[self._pos:self._pos + n]
         self._pos += len(chunk)
         self.reads.append(len(chunk))
+        if not chunk:
+            self._note('eof')
         return chunk
 
     def close(self):
@@ -140,6 +151,8 @@ class FakeS3:
         self.body_protocol = body_protocol or {'sign_reads': False, 'rewinds': 0, 'read_size': None}
         self.meta = _Meta(request_checksum_calculation)
         self.bodies_seen = []
+        self.body_log = []
+        self.clock = None        # optional callable giving a global event stamp
 
     # -- plumbing -------------------------------------------------------
     def hook(self, what, info=None):
@@ -149,7 +162,8 @@ class FakeS3:
     def _ev(self, op, phase, summary, outcome=None, seq=None):
         with self._mu:
             self._evseq += 1
-            e = {'n': self._evseq, 'op': op, 'phase': phase, 'args': summary,
+            e = {'n': self._evseq, 't': self.clock() if self.clock else self._evseq,
+                 'op': op, 'phase': phase, 'args': summary,
                  'outcome': outcome, 'seq': seq,
                  'thread': _real_threading.current_thread().name}
             self.log.append(e)
@@ -165,12 +179,12 @@ class FakeS3:
             self.max_inflight[group] = max(self.max_inflight.get(group, 0), self.inflight[group])
         outcome = 'ok'
         try:
-            exc = self.faults.check(op, 'before', seq)
+            exc = self.faults.check(op, 'before', seq, kwargs.get('Key'))
             if exc is not None:
                 self.fired.append({'op': op, 'nth': seq, 'when': 'before', 'exc': exc})
                 raise exc
             resp = effect()
-            exc = self.faults.check(op, 'after', seq)
+            exc = self.faults.check(op, 'after', seq, kwargs.get('Key'))
             if exc is not None:
                 self.fired.append({'op': op, 'nth': seq, 'when': 'after', 'exc': exc})
                 raise exc
@@ -264,7 +278,7 @@ class FakeS3:
             script = None
             if self.get_script_fn is not None:
                 script = self.get_script_fn(kw, start)
-            return {'Body': FakeBody(self, data, script, tag=(rng, start)),
+            return {'Body': FakeBody(self, data, script, tag=(kw['Key'], rng, start), key=kw['Key']),
                     'ContentLength': len(data)}
         return self._call('get_object', kw, eff)
 
